@@ -286,7 +286,7 @@ def call_closure(vm, m, clo, argvals, no_panic=False):
     c = dv(vm, clo)
     if not isinstance(c, Closure):
         raise Unsupported('calling a non-closure %r' % (c,))
-    fname = vm.closure_fn(c.span, c.owner)
+    fname = vm.closure_fn(c.span, c.owner, argvals)
     f = vm.get_func(fname)
     selfarg = clo if isinstance(clo, Ref) else Ref(Cell(c))
     if not f.params[0][1].startswith('&'):
@@ -1071,3 +1071,142 @@ def int_minmax(vm, m, callee, args):
     if callee.endswith('min') or '::min::' in callee:
         return BV(If(lt, a.v, b.v), a.signed)      # min(a, b): a if a <= b  (equal values are indistinguishable)
     return BV(If(lt, b.v, a.v), a.signed)
+
+
+# ------------------------------------------------------------------------------------------------ strings (C20)
+# Strings are identities (z3 Int): 0 = "", 1 = "NULL", other literals get distinct ids >= 10, symbolic strings are fresh
+# Int symbols.  Display/FromStr of each scalar type are an uninterpreted pair: to_string(v) is a fresh string s with
+# parses_T(s) and parse_T(s) == v, different from "" and "NULL" (assumption, listed); "" and "NULL" never parse as a
+# number or a bool (true of the std parsers).
+from z3 import Int, IntVal, Function, IntSort, BoolSort, BitVecSort
+
+_lits = {'': 0, 'NULL': 1}
+STR_AXIOMS = []
+_fresh = [0]
+
+
+def sid_of(vm, v):
+    v = dv(vm, v)
+    if isinstance(v, Str):
+        if getattr(v, 'sid', None) is not None:
+            return v.sid
+        if v.s not in _lits:
+            _lits[v.s] = 10 + len(_lits)
+        return IntVal(_lits[v.s])
+    raise Unsupported('not a string: %r' % (v,))
+
+
+def sym_str(sid):
+    s = Str(None)
+    s.sid = sid
+    return s
+
+
+def parse_fns(ty):
+    w = {'bool': None, 'i16': 16, 'i32': 32, 'i64': 64}[ty]
+    return (Function('parses_' + ty, IntSort(), BoolSort()),
+            Function('parse_' + ty, IntSort(), BoolSort() if w is None else BitVecSort(w)))
+
+
+@native(r'^core::str::<impl str>::is_empty$|^std::string::String::is_empty$', 'str::is_empty')
+def str_is_empty(vm, m, callee, args):
+    return sid_of(vm, args[0]) == 0
+
+
+@native(r'^<(bool|i16|i32|i64) as (std::string::)?ToString>::to_string$', 'Display of a scalar: a fresh non-empty string that is not "NULL" and parses back to the value (uninterpreted bijection)')
+def scalar_to_string(vm, m, callee, args):
+    ty = re.match(r'^<(\w+) as', callee).group(1)
+    v = dv(vm, args[0])
+    _fresh[0] += 1
+    s = Int('str!%d' % _fresh[0])
+    ps, pf = parse_fns(ty)
+    val = v.v if isinstance(v, BV) else bool_(v)
+    # defining axioms of the fresh string: kept globally (the call may run inside a nested closure evaluation)
+    STR_AXIOMS.append(And(s >= 2, ps(s), pf(s) == val))
+    return sym_str(s)
+
+
+@native(r'^core::str::<impl str>::parse::<(bool|i16|i32|i64)>$', 'str::parse::<T>: Ok(parse_T(s)) iff parses_T(s); "" and "NULL" do not parse')
+def str_parse(vm, m, callee, args):
+    ty = re.search(r'parse::<(\w+)>$', callee).group(1)
+    sid = sid_of(vm, args[0])
+    ps, pf = parse_fns(ty)
+    ok = And(ps(sid), sid != 0, sid != 1)
+    val = pf(sid)
+    v = BV(val, True) if ty != 'bool' else val
+    return SymEnum('Result', [(ok, Enum('Result', 'Ok', [v])), (Not(ok), Enum('Result', 'Err', [Opaque('parse error')]))])
+
+
+@native(r'^std::result::Result::<.*>::map_err::<', 'Result::map_err keeps Ok, maps Err (the mapped error is opaque)')
+def res_map_err(vm, m, callee, args):
+    r = args[0]
+    def one(a):
+        return a if a.variant == 'Ok' else Enum('Result', 'Err', [Opaque('mapped error')])
+    if isinstance(r, Enum):
+        return one(r)
+    return SymEnum('Result', [(c, one(a)) for c, a in r.alts])
+
+
+@native(r'^std::option::Option::<.*>::map::<', 'Option::map applies the closure to Some')
+def opt_map(vm, m, callee, args):
+    o = args[0]
+    def one(a):
+        if a.variant == 'None':
+            return a
+        v, p = call_closure(vm, m, args[1], [a.fields[0]])
+        return some(v)
+    if isinstance(o, Enum):
+        return one(o)
+    alts = []
+    for c, a in o.alts:
+        m.pc.append(c)
+        try:
+            alts.append((c, one(a)))
+        finally:
+            m.pc.pop()
+    return SymEnum('Option', alts)
+
+
+@native(r'^std::option::Option::<.*>::unwrap_or_else::<', 'Option::unwrap_or_else')
+def opt_unwrap_or_else(vm, m, callee, args):
+    o = args[0]
+    dflt, _ = call_closure(vm, m, args[1], [])
+    if isinstance(o, Enum):
+        return o.fields[0] if o.variant == 'Some' else dflt
+    # merge strings by identity
+    val_sid = sid_of(vm, dflt)
+    for c, a in o.alts:
+        if a.variant == 'Some':
+            val_sid = If(c, sid_of(vm, a.fields[0]), val_sid)
+    return sym_str(val_sid)
+
+
+@native(r'^<std::string::String as (Deref|AsRef<str>|Borrow<str>)>::(deref|as_ref|borrow)$|^std::string::String::as_str$|^<str as (std::string::)?ToString>::to_string$|^<std::string::String as From<&str>>::from$', 'String <-> str keep the text')
+def string_deref(vm, m, callee, args):
+    return args[0]
+
+
+# string arrays: a VarArray<str> / its builder are modelled as a list of Option<string identity> (crate contract)
+@crate_contract(r'^<(array::)?(var_array::)?(VarArrayBuilder|BytesArrayBuilder)<str> as (array::)?ArrayBuilder>::push$',
+                'StringArrayBuilder::push appends the optional string (offset/byte layout is not modelled)')
+def strarr_push(vm, m, callee, args):
+    b = dv(vm, args[0])
+    b.fields[0].items.append(args[1])
+    return UNIT
+
+
+@crate_contract(r'^<(array::)?(var_array::)?VarArray<str> as (array::)?Array>::get$', 'StringArray::get returns the stored optional string')
+def strarr_get(vm, m, callee, args):
+    a = dv(vm, args[0])
+    i = concrete_int(args[1])
+    return a.fields[0].items[i]
+
+
+@native(r'^std::string::String::new$', 'String::new is the empty string')
+def string_new(vm, m, callee, args):
+    return Str('')
+
+
+@native(r'^<std::string::String as Into<(std::boxed::)?Box<str>>>::into$|^<(std::boxed::)?Box<str> as From<std::string::String>>::from$|^<str as ToOwned>::to_owned$', 'String / Box<str> conversions keep the text')
+def string_into_box(vm, m, callee, args):
+    return dv(vm, args[0])
